@@ -17,8 +17,9 @@ What is mirrored, exactly as coded:
   an IR in which a Vid occurs twice, so the order never matters on accepted queries);
 * `required_properties` = outputs *of that component* at the vertex (`BTreeMap` order = name order,
   the order of the IR text) ++ the subjects of the vertex's own filters ++ the fields of the
-  context-field tags *used by filters of vertices of that component* that point at the vertex, with
-  later repetitions dropped (`HashSet::insert` filter);
+  context-field tags *used by filters of vertices of that component* that point at the vertex ++
+  (since the repair of finding F-3) the tags of the vertex imported by the component's folds or used
+  by their count filters, with later repetitions dropped (`HashSet::insert` filter);
 * the static candidate of `filters.rs::candidate_from_statically_evaluated_filters` and the dynamic
   one of `dynamic.rs`, branch by branch, `Range::with_start/with_end` going through `Range::new`
   (null bound ⇒ assertion panic).
@@ -77,12 +78,30 @@ def dedupNames : List Name → List Name
   | [] => []
   | x :: xs => x :: (dedupNames xs).filter (fun y => !(y == x))
 
+/-- a context-field reference that points at vertex `vid` -/
+def ctxFieldOf (vid : Vid) : FieldRef → Option Name
+  | .ctx v field _ => if v == vid then some field else none
+  | .fcount _ _ => none
+
+/-- the tag operands of a fold's post-filters -/
+def postTagRefs (f : Fold) : List FieldRef :=
+  f.post.filterMap fun flt =>
+    match flt.right with
+    | some (.tag r) => some r
+    | _ => none
+
+/-- the fourth chain of `required_properties` (repair of finding F-3): tags of vertex `vid` that a
+fold of the component imports, or that a filter on the fold's count uses -/
+def foldTagUses (vid : Vid) (f : Fold) : List Name :=
+  (f.imports ++ postTagRefs f).filterMap (ctxFieldOf vid)
+
 /-- `VertexInfo::required_properties` for vertex `v` of component `comp`. -/
 def requiredPropsAt (comp : Component) (v : IRVertex) : List Name :=
   dedupNames
     (((comp.outputs.filter (fun o => o.vid == v.vid)).map (·.field))
       ++ v.filters.filterMap filterSubject
-      ++ comp.vertices.flatMap (fun w => w.filters.filterMap (tagUseOf v.vid)))
+      ++ comp.vertices.flatMap (fun w => w.filters.filterMap (tagUseOf v.vid))
+      ++ comp.folds.flatMap (foldTagUses v.vid))
 
 /-- `required_properties()` of the `ResolveInfo` / `NeighborInfo` of vertex `vid` (a hint object
 exists only for Vids of the query: the `[]` of the `none` arm is never reported). -/
